@@ -1,7 +1,7 @@
 (* Properties/C13.v -- Disabled encodation modes are never used (the parts that are theorems). *)
 From Coq Require Import Arith NArith List Bool.
 From DM Require Import Generated.Symbols Generated.ModeTables Model.Outcome Model.SymbolList Model.Planner Model.PlannerRun Model.Enc
-  Model.Api Spec.Stream16022 Proofs.PlanShape Proofs.EncLatch Proofs.EncAscii Proofs.AsciiMinimal Proofs.EncAB Proofs.EncAX.
+  Model.Api Spec.Stream16022 Proofs.PlanShape Proofs.EncLatch Proofs.EncAscii Proofs.AsciiMinimal Proofs.EncAB Proofs.EncAX Proofs.EncAC.
 Import ListNotations.
 Local Open Scope N_scope.
 
@@ -67,6 +67,17 @@ Theorem C13_ascii_x12_only : forall sorter data symbols modes cw s,
     Forall (fun sg => match sg with SAscii _ | SX12 _ _ => True | _ => False end) script.
 Proof. intros so d sy m cw s HS HM OK H. exact (proj1 (ax_modes_roundtrip so d sy m cw s HS HM OK H)). Qed.
 Print Assumptions C13_ascii_x12_only.
+
+(* and with C40 (text = false) or Text (text = true) as the only mode beside ASCII: ASCII runs and runs of that one mode only -- the only
+   latch in the script is 230, respectively 239 *)
+Theorem C13_ascii_c40_or_text_only : forall (text : bool) sorter data symbols modes cw s,
+  (forall k l l', sorter symbols k l = Ok l' -> incl l' l) ->
+  (forall m, enabled modes m = true -> m = Ascii \/ m = (if text then Text else C40)) -> bytes_ok data = true ->
+  encode_data_internal (optimize_fn sorter) data symbols None modes false false = Ok (cw, s) ->
+  exists script npad, script_ok script npad = true /\ cw = stream script npad /\ meaning script = data /\
+    Forall (fun sg => match sg with SAscii _ => True | SC40 t _ _ _ => t = text | _ => False end) script.
+Proof. intros t so d sy m cw s HS HM OK H. exact (proj1 (ac_modes_roundtrip t so d sy m cw s HS HM OK H)). Qed.
+Print Assumptions C13_ascii_c40_or_text_only.
 
 (* what is NOT a theorem yet: that the codewords the six mode encoders write never contain, in ASCII context, a
    value that a reference decoder reads as a latch (this is the stream-level statement C02/T_enc); the check
